@@ -24,8 +24,8 @@ RULE = ('one run = a seeded base history (FileStorage on the simulated '
         'outcomes, id freshness, and the base is byte-identical / '
         'sweep-identical afterwards; non-trivial = >= 1 base and >= 2 demo '
         'commits; distinct = (kinds, outcome sequence)')
-BUDGET = {'quick': {'runs': 4000, 'wall': 300, 'chunk': 25},
-          'thorough': {'runs': 120000, 'wall': 3000, 'chunk': 50}}
+BUDGET = {'quick': {'runs': 10000, 'wall': 300, 'chunk': 25},
+          'thorough': {'runs': 800000, 'wall': 1800, 'chunk': 100}}
 ASSUMPTIONS = [
     'closing a DemoStorage closes its base, and closing a FileStorage '
     'saves an index: "base unchanged" is decided on the base data file '
